@@ -77,8 +77,11 @@ def main():
                 qs.append(["own", rng.randrange(len(orders))])
             elif k < 0.8:
                 qs.append(["foreign", rng.randrange(ns), [rng.choice(valid)], str(rng.randrange(10 ** 17, 10 ** 18))])
-            else:
+            elif k < 0.9 or not acases:
                 qs.append(["foreign", "unknown%d" % rng.randrange(10 ** 6), [rng.choice(valid)], str(rng.randrange(10 ** 17, 10 ** 18))])
+            else:
+                # a strategy that ANOTHER framework instance of the same process runs, not this one: unknown here
+                qs.append(["foreign", rng.choice(rng.choice(acases)["names"]), [rng.choice(valid)], str(rng.randrange(10 ** 17, 10 ** 18))])
         acases.append({"names": nms, "orders": orders, "queries": qs})
     ao = run_impl("c19", {"job": "resolve", "cases": acases})["out"]
     rows, meta = [], []
